@@ -10,7 +10,7 @@ from ..common import *
 from ..typedprog import *
 from .c34 import model_checks, evaluate
 
-LEVEL = "model_checked"
+LEVEL = "model_checking"
 
 
 def run(ctx):
